@@ -1,5 +1,7 @@
 (* C13 -- index files live exactly as long as they are needed.
-   Statements over EVERY action sequence of the model in theories/Indexes.v (API calls and
+   Statements over EVERY action sequence of the model in theories/Indexes.v (API calls incl. tag add / delete /
+   redefinition and converter attach / detach / removal; arbitrary environment inputs for tag uncertainty and
+   converter work; API calls and
    job steps in any order, any captures, readable or not, either View.fetch variant, ANY merge function):
    the theorems do not depend on what a merge writes, only on the lock/release discipline. *)
 From Coq Require Import List NArith Bool.
@@ -15,11 +17,12 @@ Variable merge : list file -> list entry.    (* what index.Merge writes *)
 
 Let run (acts : list action) : state := fold_left (step capdb bad refetch_empty merge) acts init.
 
-(* usedIndexes[u] = (1 if u is in the service list) + number of views and jobs holding u *)
+(* usedIndexes[u] = (1 if u is in the service list) + number of views and import / merge / tagging / converter jobs holding u *)
 Theorem C13_use_count_is_number_of_holders : forall acts u,
   cnt (used (run acts)) u =
     occ u (indexes (run acts)) + occ_views u (views (run acts))
-    + occ u (ij_files (ijob (run acts))) + occ u (mj_files (mjob (run acts))) + occ u (tj_files (tjob (run acts))).
+    + occ u (ij_files (ijob (run acts))) + occ u (mj_files (mjob (run acts))) + occ u (tj_files (tjob (run acts)))
+    + occ u (cj_files (cjob (run acts))).
 Proof. intros. exact (inv13_count _ u (run_inv13 capdb bad refetch_empty merge acts)). Qed.
 
 (* ... and a file occurs at most once in the service list, so the first summand is 0 or 1 *)
@@ -86,4 +89,17 @@ Example ex_unreadable_capture :
               [AImport [0; 1; 2]; AView 0; AStart KImport; AComplete KImport; AStart KImport; AComplete KImport;
                AStart KImport; AComplete KImport; ARelease 0; AStart KMerge; AComplete KMerge] init in
   processed st = [0; 1; 2] /\ map f_uid (indexes st) = [2] /\ used st = [(2, 1)] /\ disk st = [2] /\ quiescent st.
+Proof. vm_compute. repeat split. Qed.
+
+(* Non-vacuity of the converter path: the converter scheduler finds work when a converter is attached; the converter
+   job holds the list and blocks merges; the converter is removed while its job is parked; at its completion the
+   snapshot is released and the merge that was waiting starts. *)
+Example ex_converter_job_holds_list :
+  let capdb := fun k : N => match k with 0 => [(0, 3)] | 1 => [(1, 2)] | 2 => [(2, 1)] | _ => [] end in
+  let acts := [AImport [0]; AStart KImport; AComplete KImport; AEnvConvWork true; AConvSet;
+               AImport [1]; AStart KImport; AComplete KImport; AImport [2]; AStart KImport; AComplete KImport] in
+  let st1 := fold_left (step_impl capdb (fun _ => false)) acts init in
+  let st2 := fold_left (step_impl capdb (fun _ => false)) (acts ++ [AStart KConvert; AConvRemove; AComplete KConvert]) init in
+  (used st1 = [(0, 2); (1, 1); (2, 1)] /\ mjob st1 = None /\ map f_uid (cj_files (cjob st1)) = [0]) /\
+  (used st2 = [(0, 2); (1, 2); (2, 2)] /\ cjob st2 = None /\ map f_uid (mj_files (mjob st2)) = [0; 1; 2]).
 Proof. vm_compute. repeat split. Qed.
